@@ -395,6 +395,9 @@ func TestC06(t *testing.T) {
 		total += len(g.Seqs)
 		cases = append(cases, run.Case{ID: g.ID, Run: func(t *testing.T) run.Outcome { return runGroup(t, p, g, env.Seed+1) }})
 	}
+	retx := retxCases(p, env.Thorough(), env.Seed+1)
+	cases = append(cases, retx...)
+	params["retx_replay_cases"] = len(retx)
 	params["arrival_sequences"] = total
 	params["cases"] = len(cases)
 	run.Main(t, "C06", cases, params)
